@@ -93,14 +93,14 @@ theorem accumulate_terminal {α : Type} [Add α] {g : FlowGrid} (hg : WF g) (hr 
   rw [h2.2 _ (lt_of_valid hv).1, final_value hT nodata F F hv, if_pos hd]
 
 /-- flow direction 0 is a sink: the cell drains nowhere (`-2`) -/
-theorem dn_sink {g : FlowGrid} (hg : WF g) {c : Int} (hv : validCell g.nrows g.ncols c = true)
+theorem dn_sink {g : FlowGrid} {c : Int} (hv : validCell g.nrows g.ncols c = true)
     (hfd : g.flowdir[c.toNat]? = some 0) : dn g c = -2 := by
   unfold dn downstream
   rw [if_pos hv, hfd]
   rfl
 
 /-- a non-zero value that is not one of the codes drains nowhere (`-1`) -/
-theorem dn_unknown_code {g : FlowGrid} (hg : WF g) {c : Int} (hv : validCell g.nrows g.ncols c = true)
+theorem dn_unknown_code {g : FlowGrid} {c : Int} (hv : validCell g.nrows g.ncols c = true)
     {fd : Int} (hfd : g.flowdir[c.toNat]? = some fd) (h0 : fd ≠ 0) (hmem : fd ∉ g.codes) : dn g c = -1 := by
   unfold dn downstream
   rw [if_pos hv, hfd]
@@ -109,7 +109,7 @@ theorem dn_unknown_code {g : FlowGrid} (hg : WF g) {c : Int} (hv : validCell g.n
 
 /-- a code of the table sends the cell to the neighbour at the position of that code in the 3x3 table
 (its last position, should the table repeat a code): a cell of the grid, or `-1` when that neighbour is off the grid -/
-theorem dn_of_code {g : FlowGrid} (hg : WF g) {c : Int} (hv : validCell g.nrows g.ncols c = true)
+theorem dn_of_code {g : FlowGrid} {c : Int} (hv : validCell g.nrows g.ncols c = true)
     {fd : Int} (hfd : g.flowdir[c.toNat]? = some fd) (h0 : fd ≠ 0) {k : Nat} (hk : g.codes[k]? = some fd)
     (hlast : ∀ k', k < k' → g.codes[k']? ≠ some fd) : dn g c = neighbour g.nrows g.ncols c k := by
   unfold dn downstream
